@@ -21,7 +21,6 @@ TOP_LEVEL = {
     f'{BW}:BandwidthLimitedStream.read': 'called by botocore / the chunk reader through the file interface',
     # public API
     f'{PP}:ProcessPoolDownloader.__exit__': 'with-block exit, called by the interpreter',
-    f'{CRT}:CRTTransferManager._submit_transfer': 'called by the public upload/download/delete methods only',
 }
 
 
@@ -41,6 +40,10 @@ def register(R):
     setm(f'{UT}:set_default_checksum_algorithm', lambda c: map_locs(c.a_extra_args))
     setm(f'{BW}:BandwidthLimitedStream._consume_through_leaky_bucket', lambda c: [('f', c.self, '_bytes_seen')])
     setm(f'{PP}:ProcessPoolDownloader._shutdown', lambda c: [('f', c.self, '_started')])
+    # CRT: a submitted transfer is tracked, the id counter advances, a permit is held until on_done
+    setm(f'{CRT}:CRTTransferManager._submit_transfer', lambda c: [
+        ('f', c.self, '_id_counter'), ('m', c.old.f(c.self, '_future_coordinators'), 'len'), ('m', c.old.f(c.self, '_future_coordinators'), 'arr'),
+        ('m', c.old.f(c.self, '_semaphore'), 'count')])
     # an MRAP access-point ARN is replaced by its resource name in the call arguments
     setm(f'{CRT}:S3ClientArgsCreator._default_get_make_request_args', lambda c: [('f', c.a_call_args, 'bucket')])
     setm(f'{MG}:TransferManager._submit_transfer', lambda c: [('f', c.self, '_id_counter')])
